@@ -496,6 +496,37 @@ def replay_geom(S, kv, idx, c):
         w.confidence = 0.5
         out["conf_box"] = box6(w)
         return out
+    if kind == "boxobj":
+        # one box OBJECT under in-place operations (spec/geom/GenObj.tla): what the getters return after every operation
+        fin, ops = c["final"], c["ops"]
+        x, h, k = fin["x"], fin["h"], fin["k"]
+        for o in reversed(ops):
+            if o == "turn":
+                k -= 1
+            elif o == "move":
+                x -= 2
+            elif o == "resize":
+                h = 4 if h == 2 else 2
+        u = U(x / 2.0, fin["y"] / 2.0, k * math.pi / 2.0, fin["w"] / float(h), h / 2.0)
+        steps = []
+        for o in ops:
+            if o == "gen":
+                u.gen_vertices()
+            elif o == "turn":
+                k += 1
+                u.rotate(k * math.pi / 2.0)
+            elif o == "move":
+                u.xc = u.xc + 1.0
+            elif o == "resize":
+                width = u.aspect * u.height
+                nh = 2.0 if abs(u.height - 1.0) < 1e-6 else 1.0
+                u.height = nh
+                u.aspect = width / nh
+            # "clone": Python has no clone of a box object; nothing happens in either front end
+            steps.append({"op": o, "box": box6(u), "vertices": points(u.get_vertices()), "area": num(u.area()), "radius": num(u.get_radius())})
+        pb = c["probe"]
+        p = U(pb["x"] / 2.0, pb["y"] / 2.0, pb["k"] * math.pi / 2.0, pb["w"] / float(pb["h"]), pb["h"] / 2.0)
+        return {"kind": kind, "steps": steps, "area_up": num(S.intersection_area(u, p)), "area_pu": num(S.intersection_area(p, u))}
     return {"skip": "kind " + kind + " has no Python counterpart"}
 
 
